@@ -582,7 +582,7 @@ def main(tier, seed):
     if limit_ms > 0:
         import concurrent.futures
         wait_s = limit_ms / 1000.0 + 6.0
-        with concurrent.futures.ThreadPoolExecutor(max_workers=len(RUNAWAY)) as ex:
+        with concurrent.futures.ThreadPoolExecutor(max_workers=6) as ex:      # at most 6 spinning / allocating servers at a time
             futs = {tag: ex.submit(run_script, sc, wait_s) for tag, sc in RUNAWAY.items()}
             for tag, fu in futs.items():
                 out, dt, served, alive = fu.result()
